@@ -133,8 +133,9 @@ UnimockValue(o) == IsTrue(o.unimock)
 MockallValue(o) == IsTrue(o.mockall)
 NoDepsValue(o)  == IsTrue(o.no_deps)
 FutureSend(o)   == o.future_send # "false"
-\* Opts::mockable(): looks at PRESENCE (`is_some()`), not at the value
-Mockable(o)     == (o.unimock # "absent" /\ o.mock_api # "absent") \/ o.mockall # "absent"
+\* Opts::mockable(): looks at the values (since the "fix:" commit recorded in known_findings.json;
+\* before, `unimock = false` / `mockall = false` counted as mock support because only presence was tested)
+Mockable(o)     == (UnimockValue(o) /\ o.mock_api # "absent") \/ MockallValue(o)
 \* which mock derivations gen_trait_def attaches (UnimockAttrParams::is_empty: fn/mod need a mock_api)
 UnimockAttr(target, o) == UnimockValue(o) /\ (target = "trait" \/ o.mock_api # "absent")
 MockallAttr(o)         == MockallValue(o)
